@@ -75,6 +75,8 @@ func c19Norm(v any) any {
 	return v
 }
 
+const c19DecoyMark = "x-decoy-marker"
+
 type c19Wire struct {
 	ID     json.RawMessage `json:"id"`
 	Method *string         `json:"method"`
@@ -108,6 +110,17 @@ func c19Messages(quick bool) []string {
 		out = append(out, fmt.Sprintf(`{"jsonrpc":"2.0","method":%q,"params":%s}`, methods[j%len(methods)], v))
 	}
 	out = append(out, `{"jsonrpc":"2.0","id":1,"method":"m"}`, `{"jsonrpc":"2.0","method":"m"}`, `{"jsonrpc":"2.0","id":1,"error":{"code":-1,"message":""}}`)
+	// wrongly-cased look-alike members next to the real ones (before and after them), for small and
+	// for >= 2^53 ids: decoding is case-sensitive, so they never stand in for the real members
+	for _, id := range []string{"1", `"1"`, "9007199254740993", "-9223372036854775808"} {
+		for _, decoy := range []string{`"ID":7`, `"Id":"x"`, `"iD":9007199254740995`, `"METHOD":"evil"`, `"Method":"evil"`, `"Params":{"p":1}`, `"Result":5`, `"Error":{"code":1,"message":"x"}`} {
+			d := decoy[:len(decoy)-0]
+			mark := `"` + c19DecoyMark + `":0`
+			out = append(out, fmt.Sprintf(`{"jsonrpc":"2.0","id":%s,"method":"m","params":{"a":1},%s,%s}`, id, d, mark))
+			out = append(out, fmt.Sprintf(`{%s,%s,"jsonrpc":"2.0","id":%s,"method":"m","params":{"a":1}}`, d, mark, id))
+			out = append(out, fmt.Sprintf(`{"jsonrpc":"2.0","id":%s,"result":{"r":1},%s,%s}`, id, d, mark))
+		}
+	}
 	// large payloads: sizes around the usual reader buffer boundaries (4 KiB, 64 KiB) and beyond,
 	// as one JSON string and as an array of many small members
 	for _, n := range []int{4000, 4096, 4097, 65000, 65529, 65530, 65536, 65537, 70000, 300000, 1 << 20} {
@@ -118,13 +131,40 @@ func c19Messages(quick bool) []string {
 	return out
 }
 
+// c19ParseExact reads the members of a wire message by their exact (case-sensitive) names, which
+// is how a JSON-RPC message is defined; encoding/json's struct decoding would also accept "ID" or
+// "Method" and let a later case-variant key overwrite the real one.
+func c19ParseExact(text []byte, w *c19Wire) error {
+	var members map[string]json.RawMessage
+	if err := json.Unmarshal(text, &members); err != nil {
+		return err
+	}
+	w.ID, w.Params, w.Result = members["id"], members["params"], members["result"]
+	if raw, ok := members["method"]; ok {
+		var m string
+		if err := json.Unmarshal(raw, &m); err != nil {
+			return err
+		}
+		w.Method = &m
+	}
+	if raw, ok := members["error"]; ok {
+		if err := json.Unmarshal(raw, &w.Error); err != nil {
+			return err
+		}
+	}
+	return nil
+}
+
 func c19CheckMessage(text string) (sig, msg string) {
 	var orig c19Wire
-	if err := json.Unmarshal([]byte(text), &orig); err != nil {
+	if err := c19ParseExact([]byte(text), &orig); err != nil {
 		return "c19 harness", "bad generated message " + text
 	}
 	m, err := jsonrpc2.DecodeMessage([]byte(text))
 	if err != nil {
+		if strings.Contains(text, c19DecoyMark) {
+			return "", "" // a message with additional, wrongly-cased members may be refused; it must not be misread
+		}
 		if orig.Method == nil && orig.Result != nil && string(orig.Result) == "null" {
 			return "", "" // a response whose result is null carries neither result nor error: not well-formed
 		}
@@ -135,7 +175,7 @@ func c19CheckMessage(text string) (sig, msg string) {
 		return "c19 encode-failed", fmt.Sprintf("EncodeMessage after decoding %s: %v", text, err)
 	}
 	var back c19Wire
-	if err := json.Unmarshal(enc, &back); err != nil {
+	if err := c19ParseExact(enc, &back); err != nil {
 		return "c19 encode-garbage", fmt.Sprintf("EncodeMessage produced %q", enc)
 	}
 	idClass := func(s string) string {
